@@ -275,8 +275,16 @@ def check(col: Collector, tier: str):
         ok = ok and "ctyp.collection(ctyp.terminal(spec.cpp_return_type))" in src(coll[0].body) if coll else False
     col.add("C11.R8", bc.short, "per-use-result-variable-of-the-declared-type", bool(ok),
             "result_rep must be a lambda creating, per use, unique_name(spec.name) typed terminal(return type) - wrapped in a collection iff cpp_return_is_collection", bc.loc)
-    from sa.props.c10 import check_default_vector_type
+    from sa.props.c10 import check_default_vector_type, check_parse_type
     check_default_vector_type(col, "C11.R8", repo)
+    from sa.props._tr import check_code_value_per_call_site
+    check_code_value_per_call_site(col, "C11.R8", repo)
+    # "its include files added": what the call site requested must reach the rendered source, each entry, unfiltered
+    from sa.props._tr import import_obligations
+    import_obligations(col, "C11.R10", "c14", lambda o: o.detail == "bare-unfiltered-slot" and "include_files" in o.construct,
+                       "a function's include files are added to body_include_files: the template must render each one")
+    # the declared return type text is decomposed by parse_type before it types the result variable
+    check_parse_type(col, "C11.R8", repo)
     st_ = {src(n_.targets[0]).split(".")[-1]: src(n_.value) for n_ in walk_no_nested(bc.node) if isinstance(n_, (ast.Assign,)) and src(n_.targets[0]).startswith("r.")}
     aug = {src(n_.target).split(".")[-1]: src(n_.value) for n_ in walk_no_nested(bc.node) if isinstance(n_, ast.AugAssign) and src(n_.target).startswith("r.")}
     ok = st_.get("args") == "spec.arguments" and st_.get("result") == "spec.result" and aug.get("running_code") == "spec.code"
